@@ -2,8 +2,8 @@
 """Prints the markdown table of DESIGN.md §10.1 from seeded/*/meta.json (which check caught which seeded change)."""
 import glob, json, os
 ROOT = os.path.normpath(os.path.join(os.path.dirname(os.path.abspath(__file__)), ".."))
-print("| seeded change | property | needs, to manifest | caught by (first failing input reported) | missed by |")
-print("|---|---|---|---|---|")
+print("| seeded change | property | needs, to manifest | caught by when recorded (first failing input reported) | missed by when recorded | re-run on the final tree |")
+print("|---|---|---|---|---|---|")
 for f in sorted(glob.glob(os.path.join(ROOT, "seeded", "*", "meta.json"))):
     m = json.load(open(f))
     name = os.path.basename(os.path.dirname(f))
@@ -17,4 +17,11 @@ for f in sorted(glob.glob(os.path.join(ROOT, "seeded", "*", "meta.json"))):
             missed.append(p)
     note = " **note:** " + m["note"][:220].replace("|", "/") + "…" if m.get("note") else ""
     needs = (m.get("needs_to_manifest") or "")[:160].replace("|", "/").replace("\n", " ")
-    print(f"| `{name}` | {m.get('property')} | {needs}{note} | {'<br>'.join(caught) or '—'} | {', '.join(missed) or '—'} |")
+    rc = m.get("recheck") or {}
+    if not rc:
+        re_s = "—"
+    elif not rc.get("applies", True):
+        re_s = f"patch no longer applies at {rc.get('repo_commit')} (code rewritten by a later fix)"
+    else:
+        re_s = ", ".join(f"{p}: {'VIOLATION' + (' (no-failing-input-found)' if (r.get('line') or '').endswith('found') else '') if r.get('detected') else 'silent'}" for p, r in rc.get("checks", {}).items()) + f" @{rc.get('repo_commit')}"
+    print(f"| `{name}` | {m.get('property')} | {needs}{note} | {'<br>'.join(caught) or '—'} | {', '.join(missed) or '—'} | {re_s} |")
